@@ -109,3 +109,104 @@ def routines_seq(path, name="r"):
     path.assume(n >= 0)
     f = z3.Function(name, IntS, Val)
     return n, f, SSeq(n, lambda j: SV(f(to_int(j))), "list")
+
+
+# ============================================================================ serdes / constructors
+load_f = z3.Function("load", Val, Val)                 # serdes.load(x)
+decode_f = z3.Function("decode", Val, Val)             # serdes.decode(x)
+items_n = z3.Function("items_n", Val, IntS)            # len(list(serdes.iteritems(x)))
+item_k = z3.Function("item_k", Val, IntS, Val)
+item_v = z3.Function("item_v", Val, IntS, Val)
+vals_n = z3.Function("vals_n", Val, IntS)              # len(list(serdes.itervalues(x)))
+val_at = z3.Function("val_at", Val, IntS, Val)
+evaluate_f = z3.Function("evaluate", Val, Val)         # refs.evaluate(hint)
+
+
+class Built:
+    """The value returned by calling a class/constructor on an iterable or on keyword arguments."""
+    host_symbolic = True
+
+    def __init__(self, ctor, source=None, kwargs=None):
+        self.ctor = ctor          # host value called (SV of self.origin / self.t)
+        self.source = source      # SSeq consumed positionally (elements or pairs)
+        self.kwargs = kwargs      # CompDict / SDict passed as **kwargs
+
+
+class CompDict:
+    """{key(i): val(i) for i in range(n) if keep(i)} over a symbolic-length source of pairs."""
+    host_symbolic = True
+
+    def __init__(self, n, key, val, keep, raises):
+        self.n, self.key, self.val, self.keep, self.raises = n, key, val, keep, raises
+
+
+def install_serdes(I):
+    I.stubs["typelib.serdes.load"] = Stub("serdes.load", lambda I, p, a, k: SV(load_f(to_val(a[0]))),
+                                          "serdes.load contract (C14): text-like -> strload, anything else unchanged")
+    I.stubs["typelib.serdes.decode"] = Stub("serdes.decode", lambda I, p, a, k: SV(decode_f(to_val(a[0]))),
+                                            "serdes.decode contract (C14)")
+
+    def iteritems(I, path, a, k):
+        x = to_val(a[0])
+        return SSeq(items_n(x), lambda i, x=x: (SV(item_k(x, to_int(i))), SV(item_v(x, to_int(i)))), "gen")
+
+    def itervalues(I, path, a, k):
+        x = to_val(a[0])
+        return SSeq(vals_n(x), lambda i, x=x: SV(val_at(x, to_int(i))), "gen")
+    I.stubs["typelib.serdes.iteritems"] = Stub("serdes.iteritems", iteritems,
+                                               "serdes.iteritems contract (C18): the (key, value) pairs of x, in order, once")
+    I.stubs["typelib.serdes.itervalues"] = Stub("serdes.itervalues", itervalues,
+                                                "serdes.itervalues contract (C18): the values of x, in order, once")
+    I.stubs["typelib.py.refs.evaluate"] = Stub("refs.evaluate", lambda I, p, a, k: SV(evaluate_f(to_val(a[0]))),
+                                               "refs.evaluate(ref) = den(ref) (typing.ForwardRef._evaluate)")
+    import warnings
+    I.builtin_models[warnings.warn] = lambda I, path, args, kw: None
+
+    def dictcomp_seq(I, node, env, path, src):
+        gen = node.generators[0]
+
+        def bind(i):
+            e2 = env.child()
+            I.assign_target(gen.target, src.at(i), e2, path)
+            return e2
+
+        def keep(i):
+            acc = z3.BoolVal(True)
+            with I.elem_scope():
+                for c in gen.ifs:
+                    from pyvc.core import to_bool_term
+                    acc = z3.And(acc, to_bool_term(I.eval(c, bind(i), path, True)))
+            return acc
+
+        def key(i):
+            with I.elem_scope():
+                return I.eval(node.key, bind(i), path, True)
+
+        def val(i):
+            with I.elem_scope():
+                return I.eval(node.value, bind(i), path, True)
+
+        def raises(i):
+            with I.elem_scope() as sc:
+                I.eval(node.key, bind(i), path, True)
+                I.eval(node.value, bind(i), path, True)
+            return z3.And(keep(i), sc.cond())
+        return CompDict(src.length, key, val, keep, raises)
+    I.hooks["dictcomp_seq"] = dictcomp_seq
+
+    def call_opaque(I, path, f, args, kwargs):
+        # self.origin(iterable) / self.t(**kwargs) / self.caster(x): constructor applications are recorded
+        if getattr(f, "is_ctor", False):
+            if "$starstar" in kwargs and not args:
+                return Built(f, kwargs=kwargs["$starstar"])
+            if len(args) == 1 and not kwargs and isinstance(args[0], SSeq):
+                return Built(f, source=args[0])
+        return _MISSING
+    I.hooks["call_opaque"] = call_opaque
+    return I
+
+
+def ctor(term):
+    v = SV(term)
+    v.is_ctor = True
+    return v
